@@ -28,6 +28,8 @@ class C18(Prop):
     # translator tie: the thread-safe instantiation of the macro-stamped two-input cells (and the hand-duplicated
     # ShareObserverThreads of skip_until) is the SAME model cell as the local one (GenTie/*Threads.lean)
     tie_modules = {
+        # transcription pins (DESIGN II.7, weakest tie): the token text of the hand-transcribed files is the one the model was made from
+        "RxModel.GenTie.PinsCells": [],
         "RxModel.GenTie.SubjectThreads": [],
         "RxModel.GenTie.MergeAllThreads": [],
         "RxModel.GenTie.SubscriberThreads": [],
